@@ -624,7 +624,7 @@ PROPS = {
                 inv=["C10_SealingRules"], prop=[],
                 gens=[("rules", 0.7), ("twosingle", 0.3)], fams=["rules", "load"], mc="rules"),
     "C05": dict(strict=["ProposePre", "DeliverPre", "Load", "Wedged"], inv=["C05_CanonicalOnly"], prop=[],
-                gens=[("rules", 0.6), ("tworules", 0.4)], fams=["canon", "rules"], mc="rules"),
+                gens=[("rules", 0.6), ("tworules", 0.4)], fams=["canon", "rules", "load", "truncation"], mc="rules"),
     "C13": dict(strict=["DeliverPre", "DeliverCommit", "TickPop", "Compare", "Wedged"],
                 inv=["C03_UniqueTrx", "TypeOK"], prop=["C01_NoOverdraftConfirmed"],
                 gens=[("twosingle", 1.0)], fams=["orphans", "forged"], mc="two"),
@@ -797,6 +797,10 @@ def make_behaviours(prop, tier, rng, wd):
     for fam in spec["fams"]:
         for shape, trunc, ops in FAMS[fam](rng, tier):
             res.append((shape, trunc, ops, "family:" + fam))
+            if fam == "truncation" and shape == "drain":
+                # the same behaviour with amounts near the top of the 64 bit currency part: no wallet's sums overflow,
+                # the sum over ALL wallets of what one truncation moves does (nothing in the code may depend on it)
+                res.append((shape, trunc, ops, "family:%s:huge" % fam))
     return res
 
 
@@ -805,6 +809,8 @@ def package(prop, raw, rng, heavy=True):
     out = []
     for i, (shape, trunc, ops, origin) in enumerate(raw):
         unit = UNITS[rng.randrange(len(UNITS))]
+        if origin.endswith(":huge"):
+            unit = [1000000000000000000, 0]
         cfg = cfg_of(shape, trunc, unit)
         big = shape == "twobig"
         out.append({"id": "%s-%d" % (prop, i), "origin": origin, "cfg": cfg,
